@@ -866,7 +866,8 @@ def fold_batch(exprs: list[str], flags: list[str], mypyc: bool = False, decls: l
     return out
 
 
-def _mypyc_fold(head: list[str], exprs: list[str], keep: list[int]) -> dict[str, Any]:
+def _mypyc_ir(lines: list[str]) -> dict[str, Any]:
+    """Type check `lines` as module m (mypyc settings) and run mypyc's real IR builder with the fold recorder on."""
     global _fold_sink
     _install_mypyc_fold_hooks()
     from mypyc.errors import Errors
@@ -874,18 +875,13 @@ def _mypyc_fold(head: list[str], exprs: list[str], keep: list[int]) -> dict[str,
     from mypyc.irbuild.mapper import Mapper
     from mypyc.options import CompilerOptions
 
-    first = len(head) + 1
-    lines = head + [f"X{i}: Final = {exprs[i]}" for i in keep]
-    text = "\n".join(lines) + "\n"
-
     def mut(options: Any) -> None:
         options.export_types = True
         options.preserve_asts = True
         options.show_traceback = True
         options.per_module_options.setdefault("m", {})["mypyc"] = True
 
-    rt, ns = _runtime_lines(lines, first)
-    b = _build({"m.py": text}, [], ["m.py"], mutate_options=mut)
+    b = _build({"m.py": "\n".join(lines) + "\n"}, [], ["m.py"], mutate_options=mut)
     fail = _failure(b)
     if fail or b["result"] is None:
         return {"fail": fail or {"kind": "compile_error", "msgs": b["msgs"][:5]}}
@@ -898,19 +894,64 @@ def _mypyc_fold(head: list[str], exprs: list[str], keep: list[int]) -> dict[str,
         try:
             build_ir([res.files["m"]], res.graph, res.types, Mapper({"m": None}), CompilerOptions(), errors)
         except BaseException as e:
-            tb = traceback.format_exc()[-4000:]
-            return {"fail": {"kind": "crash", "exc": type(e).__name__, "func": inproc.classify_exc(tb), "msg": str(e)[:200],
-                             "tb": tb}}
+            tb = traceback.format_exc()[-6000:]
+            first_tb = tb.split("During handling of the above exception")[0]
+            return {"fail": {"kind": "crash", "exc": type(e).__name__, "func": inproc.classify_exc(first_tb),
+                             "msg": str(e)[:200], "tb": tb[-3000:]}}
     finally:
         sink, _fold_sink = _fold_sink, None
+    return {"sink": sink, "ir_errors": errors.new_messages()[:3], "fail": None}
+
+
+def _mypyc_fold(head: list[str], exprs: list[str], keep: list[int]) -> dict[str, Any]:
+    from mypy.errors import Errors as MErrors
+    from mypy.nodes import AssignmentStmt
+    from mypy.options import Options
+    from mypy.parse import parse
+    from mypyc.irbuild import constant_fold as MCF
+
+    _install_mypyc_fold_hooks()
+    first = len(head) + 1
+    lines = head + [f"X{i}: Final = {exprs[i]}" for i in keep]
+    # pre-pass: lines on which mypyc's real constant_fold_expr raises (an exception aborts the whole IR build)
+    popts = Options()
+    parsed = parse(("\n".join(lines) + "\n").encode(), "m.py", "m", MErrors(popts), popts)
+    tree = parsed[0] if isinstance(parsed, tuple) else parsed
+    crashed: list[dict[str, Any]] = []
+    confirmed: dict[tuple[Any, Any], Any] = {}
+    drop: set[int] = set()
+    for st in tree.defs:
+        if not isinstance(st, AssignmentStmt) or st.line < first:
+            continue
+        try:
+            MCF.constant_fold_expr(None, st.rvalue)  # type: ignore[arg-type]
+        except BaseException as e:
+            tb = traceback.extract_tb(e.__traceback__)
+            inner = next((fr for fr in reversed(tb) if "/mypy/" in fr.filename or "/mypyc/" in fr.filename), None)
+            rec = {"expr": exprs[keep[st.line - first]], "exc": type(e).__name__, "func": inner.name if inner else None,
+                   "file": os.path.basename(inner.filename) if inner else None, "msg": str(e)[:200], "found_by": "direct call"}
+            mech = (rec["exc"], rec["func"])
+            if mech not in confirmed:
+                one = _mypyc_ir(head + [lines[st.line - 1]])
+                confirmed[mech] = bool(one.get("fail") and one["fail"].get("kind") == "crash")
+                rec["real_ir_build"] = one.get("fail")
+            rec["confirmed_by_real_ir_build"] = confirmed[mech]
+            crashed.append(rec)
+            drop.add(st.line)
+    kept_lines = [ln for k, ln in enumerate(lines, 1) if k not in drop]
+    kept_idx = [keep[k - first] for k in range(first, len(lines) + 1) if k not in drop]
+    rt, ns = _runtime_lines(kept_lines, first)
+    ir = _mypyc_ir(kept_lines)
+    if ir.get("fail"):
+        return {"fail": ir["fail"], "crashed": crashed}
     recs = []
-    for r in sink:
+    for r in ir["sink"]:
         if r["who"] != "mypyc" or r["line"] < first:
             continue
-        ev = _eval_span(lines, r, ns)
+        ev = _eval_span(kept_lines, r, ns)
         if ev == "?span":
             continue
-        i = keep[r["line"] - first]
+        i = kept_idx[r["line"] - first]
         recs.append({"src": ev["src"], "rt": ev["val"], "fold": r["val"], "line_expr": exprs[i],
                      "outer": r["col"] == len(f"X{i}: Final = ")})
-    return {"records": recs, "ir_errors": errors.new_messages()[:3], "fail": None}
+    return {"records": recs, "ir_errors": ir["ir_errors"], "fail": None, "crashed": crashed}
